@@ -153,9 +153,13 @@ func (c c03Case) placements() map[string][]string {
 		"after-loops":          {"{\nfor zq <- fromto(0, 2) zq\nfor zq, zp <- fromto(0, 2), fromto(0, 3) zq\n[" + f + "]\n}"},
 		"after-error":          {"\x011 / 0", "\x01nothingx + 1", "\x01for zi <- fromto(0, 3) deep(20) + [zi]", "[" + f + "]"},
 		"after-growth":         {fmt.Sprintf("deep(%d)", 3000), "[" + f + "]"},
-		"later":                {"zx = " + f, "deep(200)", "zy = " + f, "[zx, zy]"},
-		"in-closure":           {"zc = () -> () -> " + f, "zk = zc()", "[zk(), zk()]"},
-		"loop-in-fn":           {"zl = (n) -> {\nzr = []\nfor zi <- fromto(0, n) zr = zr + [" + f + "]\nzr\n}", "zl(2) + zl(1)"},
+		// failures below calls, in closures, in generators: whatever they leave in the machine must not matter
+		"after-deep-errors": {"zbad = (n) -> if n <= 0 1 / 0 else 1 + zbad(n - 1)", "\x01zbad(0)", "\x01zbad(5)", "\x01app((x) -> [x][3], 1)",
+			"\x01for zv <- map((x) -> x / 0, () -> fromto(0, 3)) zv", fmt.Sprintf("\x01zbad(%d)", c.Deep), "\x01{\nzk = (p) -> {\nq = p\n() -> q + nothingx\n}\nzj = zk(1)\nzj()\n}", "[" + f + "]"},
+		"between-errors": {"zbad = (n) -> if n <= 0 nothingx + 1 else 1 + zbad(n - 1)", "zx = " + f, "\x01zbad(2)", "zy = " + f, "\x01for zi, zj <- fromto(0, 3), map(zbad, () -> fromto(1, 3)) zi", "[zx, zy, " + f + "]"},
+		"later":          {"zx = " + f, "deep(200)", "zy = " + f, "[zx, zy]"},
+		"in-closure":     {"zc = () -> () -> " + f, "zk = zc()", "[zk(), zk()]"},
+		"loop-in-fn":     {"zl = (n) -> {\nzr = []\nfor zi <- fromto(0, n) zr = zr + [" + f + "]\nzr\n}", "zl(2) + zl(1)"},
 	}
 }
 
